@@ -57,17 +57,17 @@ var FnPkgs = map[string]bool{
 }
 
 type ctx struct {
-	fset     *token.FileSet
-	rel      string
-	pkgID    int
-	changed  bool
-	stmtG    bool
-	fnG      bool
-	counts   map[string]int
-	tmp      int
+	fset          *token.FileSet
+	rel           string
+	pkgID         int
+	changed       bool
+	stmtG         bool
+	fnG           bool
+	counts        map[string]int
+	tmp           int
 	timeRewritten bool
-	chanName map[string]bool // identifiers known to be channels (heuristic, for range)
-	chanType map[string]bool // named channel types of the package
+	chanName      map[string]bool // identifiers known to be channels (heuristic, for range)
+	chanType      map[string]bool // named channel types of the package
 }
 
 func (c *ctx) site(n ast.Node, kind string) ast.Expr {
